@@ -67,7 +67,7 @@ func c09Templates(c c09Cfg) map[string]string {
 	var sb strings.Builder
 	sb.WriteString("R<")
 	blk := func(i int, extra string) string {
-		return "{% block " + c.names[i] + " %}" + c09Body(c.names[i], 0, "t0", false, extra, 0) + "{% endblock %}"
+		return "{% block " + c.names[i] + " %}" + c09Body(c.names[i], 0, tn(0), false, extra, 0) + "{% endblock %}"
 	}
 	first := ""
 	if c.blockFn && len(c.names) > 1 {
@@ -98,24 +98,27 @@ func c09Templates(c c09Cfg) map[string]string {
 		}
 	}
 	sb.WriteString(">R")
-	t["t0"] = sb.String()
+	t[tn(0)] = sb.String()
 	for l := 1; l < c.L; l++ {
 		var s strings.Builder
-		parent := "t" + itoa(l-1)
+		parent := tn(l - 1)
 		switch c.pref {
 		case 0:
 			s.WriteString("{% extends '" + parent + "' %}")
 		case 1:
 			s.WriteString("{% extends p" + itoa(l) + " %}")
 		case 2:
-			s.WriteString("{% extends 't' ~ '" + itoa(l-1) + "' %}")
+			pn := tn(l - 1)
+			s.WriteString("{% extends '" + pn[:len(pn)/2] + "' ~ '" + pn[len(pn)/2:] + "' %}")
 		}
 		s.WriteString("ignored" + itoa(l))
 		if c.useLvl == l {
 			if c.useKind == 0 {
 				s.WriteString("{% use 'blk' %}")
-			} else {
+			} else if c.useKind == 1 {
 				s.WriteString("{% use 'blk2' with x as y %}")
+			} else {
+				s.WriteString("{% use 'blk2' with x as y, w as y2, v as y3 %}")
 			}
 		}
 		firstOwn := true
@@ -127,6 +130,9 @@ func c09Templates(c c09Cfg) map[string]string {
 			if c.useLvl == l && c.useKind == 1 && firstOwn {
 				extra = "+{{ block('y') }}"
 			}
+			if c.useLvl == l && c.useKind == 2 && firstOwn {
+				extra = "+{{ block('y') }}{{ block('y2') }}{{ block('y3') }}"
+			}
 			firstOwn = false
 			if c.nested {
 				extra += "{% if true %}{% block zz" + n + itoa(l) + " %}(z:{{ name() }}){% endblock %}{% endif %}"
@@ -134,16 +140,16 @@ func c09Templates(c c09Cfg) map[string]string {
 			if c.pform == 3 && i == 0 && len(c.names) > 1 && c.opt[l][i] == 2 {
 				extra += "%{{ block('" + c.names[1] + "') }}"
 			}
-			s.WriteString("{% block " + n + " %}" + c09Body(n, l, "t"+itoa(l), c.opt[l][i] == 2, extra, c.pform) + "{% endblock %}between")
+			s.WriteString("{% block " + n + " %}" + c09Body(n, l, tn(l), c.opt[l][i] == 2, extra, c.pform) + "{% endblock %}between")
 		}
-		t["t"+itoa(l)] = s.String()
+		t[tn(l)] = s.String()
 	}
 	var ub strings.Builder
 	for _, n := range c.names {
 		ub.WriteString("{% block " + n + " %}[" + n + "U:{{ name() }}]{% endblock %}text in used template")
 	}
 	t["blk"] = ub.String()
-	t["blk2"] = "{% block x %}[xX:{{ name() }}]{% endblock %}"
+	t["blk2"] = "{% block x %}[xX:{{ name() }}]{% endblock %}{% block w %}[wW:{{ name() }}]{% endblock %}{% block v %}[vV:{{ name() }}]{% endblock %}"
 	return t
 }
 
@@ -160,7 +166,7 @@ func c09Expect(c c09Cfg) string {
 	for i, n := range c.names {
 		for l := c.L - 1; l >= 0; l-- {
 			if c.opt[l][i] != 0 {
-				chain[n] = append(chain[n], c09Def{level: l, parent: c.opt[l][i] == 2, tpl: "t" + itoa(l)})
+				chain[n] = append(chain[n], c09Def{level: l, parent: c.opt[l][i] == 2, tpl: tn(l)})
 			}
 			if c.useLvl == l && c.useKind == 0 {
 				chain[n] = append(chain[n], c09Def{level: -1, tpl: "blk"})
@@ -194,6 +200,8 @@ func c09Expect(c c09Cfg) string {
 			}
 		} else if c.useLvl == d.level && c.useKind == 1 && firstOwnOf[d.level] == ni {
 			s += "+[xX:blk2]"
+		} else if c.useLvl == d.level && c.useKind == 2 && firstOwnOf[d.level] == ni {
+			s += "+[xX:blk2][wW:blk2][vV:blk2]"
 		}
 		if d.level > 0 && c.nested {
 			s += "(z:" + d.tpl + ")"
@@ -236,9 +244,23 @@ func c09Expect(c c09Cfg) string {
 	return sb.String()
 }
 
+// c09NameStyle: 0 plain names ("t1"); 1 names with surrounding blanks and an inner blank (" t 1 "): a template name is
+// an opaque loader key
+var c09NameStyle int
+
+func tn(l int) string {
+	if c09NameStyle == 1 {
+		return " t " + itoa(l) + " "
+	}
+	return "t" + itoa(l)
+}
+
 func c09Run(c core.Case) core.Result {
+	c09NameStyle = c.N[5] >> 2
+	c.N = append([]int{}, c.N...)
+	c.N[5] &= 3
 	cfg := c09Decode(c.N)
-	if cfg.useLvl >= cfg.L || (cfg.useLvl > 0 && cfg.useKind == 1) && func() bool {
+	if cfg.useLvl >= cfg.L || (cfg.useLvl > 0 && cfg.useKind >= 1) && func() bool {
 		for i := range cfg.names {
 			if cfg.opt[cfg.useLvl][i] != 0 {
 				return false
@@ -254,14 +276,14 @@ func c09Run(c core.Case) core.Result {
 	env.Functions["name"] = func(ctx stick.Context, args ...stick.Value) stick.Value { return ctx.Name() }
 	ctx := map[string]stick.Value{}
 	for l := 1; l < cfg.L; l++ {
-		ctx["p"+itoa(l)] = "t" + itoa(l-1)
+		ctx["p"+itoa(l)] = tn(l - 1)
 	}
-	main := "t" + itoa(cfg.L-1)
+	main := tn(cfg.L - 1)
 	out, err, pan := tryExec(env, main, ctx)
 	desc := func() string {
 		var parts []string
 		for l := cfg.L - 1; l >= 0; l-- {
-			parts = append(parts, fmt.Sprintf("t%d=%q", l, tpls["t"+itoa(l)]))
+			parts = append(parts, fmt.Sprintf("t%d=%q", l, tpls[tn(l)]))
 		}
 		if cfg.useLvl > 0 {
 			parts = append(parts, fmt.Sprintf("blk=%q blk2=%q", tpls["blk"], tpls["blk2"]))
@@ -285,8 +307,8 @@ func c09Run(c core.Case) core.Result {
 		probes[main] = tpls[main]
 	}
 	if cfg.useLvl > 0 && cfg.useKind == 1 && cfg.pform == 0 {
-		probes["probe1"] = "{% extends 't0' %}{% use 'blk2' %}{% block " + cfg.names[0] + " %}[{{ block('y') }}|{{ block('x') }}]{% endblock %}"
-		probes["probe2"] = "{% extends 't0' %}{% use 'blk2' with x as z %}{% block " + cfg.names[0] + " %}[{{ block('z') }}]{% endblock %}"
+		probes["probe1"] = "{% extends '" + tn(0) + "' %}{% use 'blk2' %}{% block " + cfg.names[0] + " %}[{{ block('y') }}|{{ block('x') }}]{% endblock %}"
+		probes["probe2"] = "{% extends '" + tn(0) + "' %}{% use 'blk2' with x as z %}{% block " + cfg.names[0] + " %}[{{ block('z') }}]{% endblock %}"
 	}
 	if len(probes) > 0 {
 		fresh := map[string]string{}
@@ -342,7 +364,7 @@ func c09Gen(maxL, nNames, pforms int, emit func(core.Case)) {
 						continue
 					}
 					for useLvl := 0; useLvl < L; useLvl++ {
-						kinds := 2
+						kinds := 3 // none-or-plain, aliased, three aliases in one use
 						if useLvl == 0 {
 							kinds = 1
 						}
@@ -358,7 +380,14 @@ func c09Gen(maxL, nNames, pforms int, emit func(core.Case)) {
 									if pf > 0 && !hasParent {
 										continue
 									}
+									if uk == 2 && (pf > 0 || bf > 1) {
+										continue
+									}
 									emit(core.Case{Fam: "cfg", N: append([]int{L, nNames, layout, pref, useLvl, uk, bf | pf<<2}, opts...)})
+									if L <= 3 && pf == 0 && bf == 0 && layout == 0 {
+										// the same with template names that carry blanks
+										emit(core.Case{Fam: "cfg", N: append([]int{L, nNames, layout, pref, useLvl, uk | 1<<2, bf | pf<<2}, opts...)})
+									}
 								}
 							}
 						}
@@ -371,7 +400,7 @@ func c09Gen(maxL, nNames, pforms int, emit func(core.Case)) {
 
 func c09Levels(tier string) []core.Level {
 	lv := []core.Level{
-		{Name: "chains of 1..4 templates x 2 block names x {absent, override, override+parent()} per level x 3 root layouts x 3 parent-reference forms x use (none / plain / aliased at every level) x block()", Gen: func(emit func(core.Case)) { c09Gen(4, 2, 4, emit) }},
+		{Name: "chains of 1..4 templates x 2 block names x {absent, override, override+parent()} per level x 3 root layouts x 3 parent-reference forms x use (none / plain / aliased / three aliases in one tag, at every level) x block()", Gen: func(emit func(core.Case)) { c09Gen(4, 2, 4, emit) }},
 	}
 	if thorough(tier) {
 		lv = append(lv, core.Level{Name: "the same with 3 block names", Gen: func(emit func(core.Case)) { c09Gen(4, 3, 4, emit) }})
@@ -386,7 +415,7 @@ func init() {
 	core.Register(&core.Check{
 		ID:       "C09",
 		Category: "exploration",
-		Rule: "bounded-exhaustive inheritance configurations: chain length 1..4, 2 block names (3 up to length 3; thorough: 3 names to length 4, 4 names to length 2), each (level, name) absent / overriding / overriding and calling parent(), root defining all; root layout flat / second block nested in the first / first block inside a 2-iteration loop; parent named by literal, variable or concatenation; a use tag at any extending level, plain (block set ranking between own and ancestors' blocks) or aliased with block('y'); block(name) in the root; optionally a nested block of its own inside every child-level definition, before its parent() call; parent() written once, twice, inside a 2-iteration loop or directly after a block() call of another block; text outside blocks in every child; every block prints Context.Name(); after the render, the same template and (after an aliased use) two probes importing the used template plainly / under another alias are rendered on the same environment and must give what a fresh environment gives. " +
+		Rule: "bounded-exhaustive inheritance configurations: chain length 1..4, 2 block names (3 up to length 3; thorough: 3 names to length 4, 4 names to length 2), each (level, name) absent / overriding / overriding and calling parent(), root defining all; root layout flat / second block nested in the first / first block inside a 2-iteration loop; parent named by literal, variable or concatenation; a use tag at any extending level, plain (block set ranking between own and ancestors' blocks), aliased with block('y'), or with three aliases in one tag; template names plain or carrying blanks; block(name) in the root; optionally a nested block of its own inside every child-level definition, before its parent() call; parent() written once, twice, inside a 2-iteration loop or directly after a block() call of another block; text outside blocks in every child; every block prints Context.Name(); after the render, the same template and (after an aliased use) two probes importing the used template plainly / under another alias are rendered on the same environment and must give what a fresh environment gives. " +
 			"Reference: textbook resolution (most-derived definition; parent() = next definition in the order child, used, ancestors; name() = defining template). distinct = distinct configuration; non-trivial = chain length > 1",
 		Assumptions: []string{"a non-extending template with use is not claimed", "used templates define plain blocks (no parent() inside used blocks)"},
 		Levels:      c09Levels,
